@@ -112,10 +112,10 @@ func c07Run(cs c07Case) error {
 }
 
 func TestC07(t *testing.T) {
-	ev.Check(t, "c07_entropy", ev.N(5000, 100000), func(t *rapid.T) c07Case {
+	ev.Check(t, "c07_entropy", ev.N(48000, 600000), func(t *rapid.T) c07Case {
 		return c07Case{gen.CharSpec(t, gen.CharOpts{MaxLen: 64, MaxReq: 4, LongTail: 4000})}
 	}, c07Run)
-	ev.Check(t, "c07_many_sets", ev.N(48, 400), func(t *rapid.T) c07Case {
+	ev.Check(t, "c07_many_sets", ev.N(160, 1600), func(t *rapid.T) c07Case {
 		c := gen.CharSpec(t, gen.CharOpts{MaxLen: 40, MaxReq: 8, NoHiBits: true})
 		c.Require = 0
 		n := rapid.IntRange(5, 8).Draw(t, "nsets")
